@@ -1,5 +1,6 @@
 import PestModel.Model.ViewsSpec
 import PestModel.Lemmas.Views
+import PestModel.Lemmas.ViewsTagged
 /-!
 # C04 — … every Pairs view agrees with the one tree (part 1: views over a well-formed queue)
 
@@ -217,5 +218,30 @@ theorem nested_children (input : Str) (lo hi : Nat) (t : Tree) (ts : List Tree)
     simp only [nestedForest, nestedTree, Bool.and_eq_true, decide_eq_true_eq] at h
     obtain ⟨⟨⟨⟨⟨⟨h1, h2⟩, h3⟩, _⟩, _⟩, h4⟩, h5⟩ := h
     exact ⟨h1, h2, h3, h4, h5⟩
+
+/-- **`find_tagged(tag)`** yields exactly the pairs of the forest whose node tag is `tag`, in pre-order (the order of `flatten()`):
+the i-th index returned shows the i-th such tree. -/
+theorem find_tagged (q : List QTok) (a b : Nat) (trees : List Tree) (v : Pairs) (tag : Str) (h : Encodes q a b trees)
+    (hs : v.start = a) (he : v.stop = b) :
+    ∃ is, v.findTagged q tag = some is ∧ IdxMatch q is ((preorderList trees).filter fun t => t.tag = some tag) :=
+  findTagged_spec a b trees v tag h hs he
+
+/-- **`find_first_tagged(tag)`** is the first of them in pre-order — the outermost pair when a tagged pair has an equally
+tagged descendant — or nothing when no pair carries the tag. -/
+theorem find_first_tagged (q : List QTok) (a b : Nat) (trees : List Tree) (v : Pairs) (tag : Str) (h : Encodes q a b trees)
+    (hs : v.start = a) (he : v.stop = b) :
+    ∃ r, v.findFirstTagged q tag = some r ∧
+      match r, ((preorderList trees).filter fun t => t.tag = some tag).head? with
+      | some i, some t => PairObs q i t
+      | none, none => True
+      | _, _ => False :=
+  findFirstTagged_spec a b trees v tag h hs he
+
+/-- not vacuous: a tagged pair inside an equally tagged pair — the outer one (index 0) is found, both are listed. -/
+example :
+    let forest := [Tree.node 1 0 3 (some ['t']) [Tree.node 2 1 2 (some ['t']) []]]
+    let q := build forest
+    (Pairs.new q 0 q.length).bind (fun v => v.findFirstTagged q ['t']) = some (some 0) ∧
+    (Pairs.new q 0 q.length).bind (fun v => v.findTagged q ['t']) = some [0, 1] := by decide
 
 end PestModel.C04
